@@ -205,7 +205,7 @@ Proof.
   intros n x z Hx Hz H.
   pose proof (perm_length n x Hx) as Lx. pose proof (perm_length n z Hz) as Lz.
   set (f := fun i => P z (Z.to_nat (nth i x 0))).
-  assert (Hval : forall i, (i < n)%nat -> (Z.to_nat (nth i x 0) < n)%nat).
+  assert (Hval : forall i, (i < n)%nat -> (Z.to_nat (nth i x 0%Z) < n)%nat).
   { intros i Hi. assert (In (nth i x 0) x) by (apply nth_In; lia). apply (perm_in n x _ Hx) in H0. lia. }
   assert (Hinc : forall i i', (i < i' < n)%nat -> (f i < f i')%nat).
   { intros i i' Hi. unfold f. apply H; try (apply Hval; lia).
